@@ -148,7 +148,7 @@ func H_C14_Field() {
 	fillField(n1, f, "x", k)
 	fillField(n2, f, "y", k)
 	c1, c2 := cloneNode(n1), cloneNode(n2)
-	rt.Region("valueNotPlainWord", rt.Or(fieldSep(n1, f), fieldSep(n2, f)))
+	plainRegion(rt.Or(fieldSep(n1, f), fieldSep(n2, f)))
 	d := n1.Diff(n2)
 	same := fieldSameSet(c1, c2, f)
 	rt.Assert(rt.Iff(d == nil, same), "C14.iff."+nodeFieldNames[f])
@@ -187,7 +187,7 @@ func H_C14_Count() {
 		fillField(n1, f, "x", 1)
 		fillField(n2, f, "y", 1)
 	}
-	rt.Region("valueNotPlainWord", rt.Or(fieldSep(n1, scal[i]), fieldSep(n2, scal[i]), fieldSep(n1, scal[j]), fieldSep(n2, scal[j])))
+	plainRegion(rt.Or(fieldSep(n1, scal[i]), fieldSep(n2, scal[i]), fieldSep(n1, scal[j]), fieldSep(n2, scal[j])))
 	c1, c2 := cloneNode(n1), cloneNode(n2)
 	d := n1.Diff(n2)
 	di := rt.Not(fieldSameSet(c1, c2, scal[i]))
